@@ -31,6 +31,11 @@ def snap_writer(self):
                "author": S.leaf(self.author), "affiliation": S.leaf(self.affiliation), "source": S.leaf(self.source),
                "tags": sorted(t.name for t in self.tags), "location": S.snap_location(self.location)}
         sc.update(hdr)
+        if fmt == "xml":
+            # a lanelet without a type is not schema-expressible; the writer documents that it writes 'unknown' instead
+            for la in sc["lanelets"].values():
+                if not la["lanelet_type"]:
+                    la["lanelet_type"] = ["UNKNOWN"]
         return {"scenario": sc, "pps": S.snap_pps(self.planning_problem_set), "fmt": fmt}
     except Exception as e:  # noqa
         return e
